@@ -1,22 +1,22 @@
 CONSTANTS
-  MaxId = 3
+  MaxId = 1
   ZeroIncBug = FALSE
   OpenRaceBug = FALSE
-  W = 1
+  W = 2
   B = 1
-  Openers = {0}
-  MaxWrite = 1
+  Openers = {}
+  MaxWrite = 2
   MaxRead = 1
-  Budget = 7
-  WireCap = 3
-  DoExport = TRUE
+  Budget = 5
+  WireCap = 1
+  DoExport = FALSE
   DeadlineBug = "none"
-  Acts = {"open","accept","cancel","write","read","cw","close"}
-  Modes = {}
+  Acts = {"wstart","rstart","setwd","setrd","write","read"}
+  Modes = {"clear","past","far","soon"}
   DlEnds = {0, 1}
-  PreEst = FALSE
-  BlockOnRoom = FALSE
-  TrackKinds = {"zr","rt"}
+  PreEst = TRUE
+  BlockOnRoom = TRUE
+  TrackKinds = {}
 SPECIFICATION Spec
 VIEW view
 INVARIANT InvTokens InvInOrder InvEOFComplete InvNoCrossTalk InvNoViolation InvWindow InvWire Export
